@@ -279,7 +279,7 @@ func TestC02(t *testing.T) {
 
 	// long-lived parsers: many small valid values through ONE parser
 	h.Rapid("long-streams", h.N(60, 1500), func(rt *rapid.T) {
-		c := c02Long{Pattern: rapid.SampledFrom([]string{"bulks", "bulks", "commands", "commands", "big-arrays", "null-arrays", "siblings"}).Draw(rt, "pattern")}
+		c := c02Long{Pattern: rapid.SampledFrom([]string{"bulks", "bulks", "commands", "commands", "big-arrays", "null-arrays", "siblings", "nested-big"}).Draw(rt, "pattern")}
 		c.Chunk = rapid.SampledFrom([]int{0, 0, 1460, 4096, 65536}).Draw(rt, "chunk")
 		switch c.Pattern {
 		case "bulks", "commands":
@@ -293,6 +293,9 @@ func TestC02(t *testing.T) {
 		case "big-arrays":
 			c.Sizes = []int{rapid.SampledFrom([]int{1000, 50000, 65536}).Draw(rt, "arity")}
 			c.N = 1400000/c.Sizes[0] + rapid.IntRange(0, 3).Draw(rt, "more")
+		case "nested-big":
+			c.N = rapid.IntRange(1, 3).Draw(rt, "n")
+			c.Sizes = []int{rapid.SampledFrom([]int{3, 1024, 1025, 1100, 2049}).Draw(rt, "arity")}
 		case "null-arrays":
 			c.N = rapid.SampledFrom([]int{10, 1022, 1023, 1024, 1100, 5000}).Draw(rt, "n")
 			c.Sizes = []int{rapid.SampledFrom([]int{0, 1, 4, 500, 1000}).Draw(rt, "depth")}
